@@ -411,11 +411,16 @@ def make_table(rng, ref, pvt, wellformed_rows: int = 18):
     """A production table generated by the library's forward model, with zero-rate days and missing pressures."""
     n = int(rng.integers(wellformed_rows + 6, 50))  # at most 5 rows are removed below: more than 16 reach the fit
     tau_g, m_g, p_g = rng.uniform(35.0, 150.0), 10 ** rng.uniform(3, 4.5), rng.uniform(5000.0, 11000.0)
-    pf = schedule(rng, n, p_g)
     days = np.arange(n, dtype=float)
-    cum = m_g * rf_lib(ref, pvt, days, tau_g, p_g, pf)
-    gas = np.diff(cum, prepend=0.0)
-    gas[0] = gas[1] * rng.uniform(0.5, 1.5)  # a first productive day
+    while True:
+        pf = schedule(rng, n, p_g)
+        cum = m_g * rf_lib(ref, pvt, days, tau_g, p_g, pf)
+        gas = np.diff(cum, prepend=0.0)
+        gas[0] = abs(gas[1]) * rng.uniform(0.5, 1.5) + 1e-9 * m_g  # a first productive day
+        # while the pressure at the fracture face rises the model flows back: the meter shows a shut-in day (no production)
+        gas = np.maximum(gas, 0.0)
+        if int((gas > 0).sum()) - 5 >= wellformed_rows - 1:
+            break
     if rng.random() < 0.5:
         gas *= rng.uniform(0.9, 1.1, n)  # measurement noise
     return {"tau": tau_g, "M": m_g, "p_initial": p_g}, days, gas, pf
